@@ -80,6 +80,18 @@ func c12Shapes() []*spec.Spec {
 		s.Procs = append(s.Procs, p, &spec.Proc{Name: "PSA", Kind: spec.KParamSource, Values: []string{"a1", "a2", "a3"}}, &spec.Proc{Name: "PSB", Kind: spec.KParamSource, Values: []string{"b1", "b2", "b3"}})
 		s.Conns = append(s.Conns, &spec.Conn{From: "PSA.out", To: "PF.k", Param: true}, &spec.Conn{From: "PSB.out", To: "PF.k", Param: true})
 		out = append(out, s)
+		// six one-value sources closing their connection to one port at the same moment (no literal feeders)
+		s2 := mk("param_fanin_close", 1)
+		q := cmd("PQ", nil, o1, 1)
+		q.Cmd = spec.BuildCmd("PQ", nil, o1, []string{"k"}, nil, nil)
+		q.Outs = []*spec.Out{{Port: "out", Pattern: "pq_{p:k}.out"}}
+		s2.Procs = append(s2.Procs, q)
+		for x := 0; x < 6; x++ {
+			n := fmt.Sprintf("PS%d", x)
+			s2.Procs = append(s2.Procs, &spec.Proc{Name: n, Kind: spec.KParamSource, Values: []string{fmt.Sprintf("v%d", x)}})
+			s2.Conns = append(s2.Conns, &spec.Conn{From: n + ".out", To: "PQ.k", Param: true})
+		}
+		out = append(out, s2)
 	}
 	// fan-in of many upstreams closing at once
 	{
